@@ -2,10 +2,25 @@
 //!
 //! Five front ends (GQL, Cypher, Gremlin, GraphQL, SPARQL). Every string is executed inside a child
 //! worker process (`vcheck --worker c12`, RLIMIT_AS 4 GiB, 8 MiB handler stack) against a fresh empty
-//! database and a fresh small fixed one. Oracle: the worker answers within the deadline and reports
-//! no panic. A panic comes back with its `panic@file:message` signature; a dead worker (abort, stack
-//! overflow, OOM) and a hang (20 s, confirmed at 60 s in a fresh worker) are localised to the stage
-//! (lex / parse / translate / exec-empty / exec-small) by re-running with a stage cap.
+//! database and a fresh small fixed one. Oracle: the worker answers and reports no panic.
+//!
+//! * panic: comes back with its `panic@file:message` signature (and the stage it happened in);
+//! * dead worker (abort, stack overflow, OOM): re-run in a fresh worker; if it dies again it is classified as
+//!   stack overflow (survives with a 1 GiB stack) or abort/OOM and localised to the first stage cap
+//!   (lex / parse / translate / exec-empty / exec-small) at which a fresh worker dies;
+//! * hang: no answer within 20 s, then re-run once in a fresh worker that watches itself: 20 CPU-seconds
+//!   spent on the request (or 30 s without any runnable thread) without an answer is a hang. Wall-clock
+//!   alone never decides (the 3x wall deadline of the design is replaced by a CPU-time criterion that is
+//!   equivalent on an idle machine and immune to machine load); no verdict within 900 s wall is INCONCLUSIVE.
+//!
+//! The reply of a passing case says how far the input got (lexerr / parseerr / translerr / execerr-<kind> /
+//! ok / ok-rows): that is the class histogram and the non-trivial rule ("got past lexing").
+//!
+//! Sub-checks: `exec` (every skeleton as it is; also the sub-check libFuzzer artifacts are replayed in),
+//! `truncate` (every char-boundary prefix of every skeleton, exhaustive), `nesting` (every bracket / operator /
+//! clause nesting template at several depths up to 2000), `arith` (arithmetic / SKIP / LIMIT / range templates over
+//! extreme operands), `gql` `cypher` `gremlin` `graphql` `sparql` (generated: mutation, splice, soup, nesting,
+//! arithmetic), `params` (parameter maps over every Value type).
 
 pub mod strat;
 pub mod seeds;
@@ -744,24 +759,24 @@ pub fn run(r: &mut Run) {
     r.enumerate("exec", skeleton_cases(), false, |c: &ExecCase| judge(&pool, c));
 
     // truncation of every skeleton at every character boundary
-    r.enumerate("truncate", truncation_cases(if thorough { 1 } else { 2 }), thorough, |c: &ExecCase| judge(&pool, c));
+    r.enumerate("truncate", truncation_cases(1), true, |c: &ExecCase| judge(&pool, c));
 
     // nesting of every bracket / operator / clause kind
     let depths: &[usize] = if thorough { &[1, 2, 3, 8, 33, 100, 250, 500, 1000, 1500, 2000] } else { &[3, 40, 300, 2000] };
     r.enumerate("nesting", nesting_cases(depths), false, |c: &ExecCase| judge(&pool, c));
 
     // arithmetic and SKIP/LIMIT/range templates over the product of extreme operands
-    r.enumerate("arith", arith_cases(if thorough { 1 } else { 4 }), thorough, |c: &ExecCase| judge(&pool, c));
+    r.enumerate("arith", arith_cases(if thorough { 1 } else { 2 }), thorough, |c: &ExecCase| judge(&pool, c));
 
     // generated, per language
-    r.subcheck("gql", r.cases(30_000, 600_000), || strat::case_strategy("gql"), |c: &ExecCase| judge(&pool, c));
-    r.subcheck("cypher", r.cases(30_000, 600_000), || strat::case_strategy("cypher"), |c: &ExecCase| judge(&pool, c));
-    r.subcheck("gremlin", r.cases(30_000, 600_000), || strat::case_strategy("gremlin"), |c: &ExecCase| judge(&pool, c));
-    r.subcheck("graphql", r.cases(30_000, 600_000), || strat::case_strategy("graphql"), |c: &ExecCase| judge(&pool, c));
-    r.subcheck("sparql", r.cases(30_000, 600_000), || strat::case_strategy("sparql"), |c: &ExecCase| judge(&pool, c));
+    r.subcheck("gql", r.cases(60_000, 1_500_000), || strat::case_strategy("gql"), |c: &ExecCase| judge(&pool, c));
+    r.subcheck("cypher", r.cases(60_000, 1_500_000), || strat::case_strategy("cypher"), |c: &ExecCase| judge(&pool, c));
+    r.subcheck("gremlin", r.cases(60_000, 1_500_000), || strat::case_strategy("gremlin"), |c: &ExecCase| judge(&pool, c));
+    r.subcheck("graphql", r.cases(60_000, 1_500_000), || strat::case_strategy("graphql"), |c: &ExecCase| judge(&pool, c));
+    r.subcheck("sparql", r.cases(60_000, 1_500_000), || strat::case_strategy("sparql"), |c: &ExecCase| judge(&pool, c));
 
     // parameter maps
-    r.subcheck("params", r.cases(12_000, 240_000), strat::params_strategy, |c: &ExecCase| judge(&pool, c));
+    r.subcheck("params", r.cases(30_000, 600_000), strat::params_strategy, |c: &ExecCase| judge(&pool, c));
 
     for u in UNCONFIRMED.lock().unwrap().drain(..) {
         r.inconclusive(u);
